@@ -45,6 +45,26 @@ func init() {
 		if o.err == nil {
 			return eng.F("C03/misuse-not-reported", "%s is misuse the statement names (not a function, wrong argument count or type, position out of range, invalid regular expression, comparing arrays or maps, missing struct field, assertion on null) but evaluates to %s without an error", c.Src, show(o.val))
 		}
+		// ... every time: the same formula again on one runner (a runner that has reported the misuse once
+		// reports it again), from the same tree and from a tree parsed anew
+		r := formula.NewRunner()
+		if d := dataConfig(c.Data); d != nil {
+			r.SetThis(d)
+		}
+		p := safeParse([]byte(c.Src))
+		for i := 1; i <= 4; i++ {
+			if i == 3 {
+				p = safeParse([]byte(c.Src))
+			}
+			if p.panicked || p.err != nil {
+				return eng.F("harness/misuse", "%s does not parse the second time: %v", c.Src, p.err)
+			}
+			if o := safeResolve(r, bg, p.src.Expression); o.panicked {
+				return eng.F("C03/panic", "%s (evaluation %d on one runner) panicked: %s", c.Src, i, o.panicMsg)
+			} else if o.err == nil {
+				return eng.F("C03/misuse-not-reported", "%s is misuse and was reported as such by the first evaluations on this runner, but evaluation %d on the same runner gives %s without an error", c.Src, i, show(o.val))
+			}
+		}
 		return nil
 	})
 	c03Gen = eng.NewKind(c, "gen", func(c GenCase) *eng.Fail {
@@ -116,6 +136,9 @@ func dataConfig(name string) map[string]interface{} {
 		sd := sigmaEvalData()
 		sd["hv"] = func(head interface{}, rest ...interface{}) (interface{}, error) { return len(rest), nil }
 		sd["hv0"] = variadicFunc
+		sd["ints"] = []int{1, 2}
+		sd["smap"] = map[string]int{"k": 1}
+		sd["m"].(map[string]interface{})["l"] = []interface{}{1.0}
 		return sd
 	case "none":
 		return nil
@@ -336,6 +359,23 @@ func runC03(w *eng.W) {
 				for k := 0; k <= in+3; k++ {
 					if k != in {
 						misuse(list(k, ""))
+					}
+				}
+			}
+		}
+		// comparing arrays or maps - of the same or of different Go types, with any of the eight operators
+		if w.Take() {
+			comp := []string{"arr", "[1]", "[]", "m", "this", "ints", "smap", "m.l", "[[1]]"}
+			for _, a := range comp {
+				for _, b := range comp {
+					for _, op := range []string{"==", "!=", "===", "!==", "<", ">", "<=", ">="} {
+						src := a + " " + op + " " + b
+						w.State(1)
+						w.Trans(1)
+						w.Trace(1)
+						w.Note("leg:reported-misuse", 1)
+						w.Sample("reported-misuse", src)
+						c03Misuse.Do(w, EvalCase{Src: src, Data: "sigma-hv"})
 					}
 				}
 			}
